@@ -50,7 +50,8 @@ class Chatty(acdev.ACModel):
         reply = super().handle(f)
         before, after = self.plan
         pre = [x for x in (self.extra(k, reply) for k in before if k != "stale") if x]
-        post = [x for x in (self.extra(k, reply) for k in after if k != "stale") if x]
+        # behind the reply an OLD-state report is only placed when the reply is repeated after it (the last frame of the exchange is the current state)
+        post = [x for x in (self.extra(k, reply) for j, k in enumerate(after) if k != "stale" or "dup" in after[j + 1:]) if x]
         out = pre + reply + post
         self.tx_log += out
         return out
@@ -93,7 +94,7 @@ def scenario(ctx, ver, want, *, extras, cutmode, seed, stale_first, v2_split, ri
     devid = rng.choice([0, 1, 2 ** 48 - 1, rng.getrandbits(48), rng.getrandbits(48)])
     dev = landev.LanDevice(loop, net, ac, version=ver, token=tok, key=key, seed=seed)
     cuts = cutter(rng, cutmode)
-    spread = rng.random() < 0.6
+    spread = rng.random() < 0.6 and "stale" not in extras[1]      # an old-state report in the middle of the reply stream: the whole stream arrives at one instant
     busy_until = {}
 
     def respond(tr, packets):
@@ -167,10 +168,13 @@ def scenario(ctx, ver, want, *, extras, cutmode, seed, stale_first, v2_split, ri
                     tr.feed(landev.v2_wrap(ac.stale, devid))
             apply_state(AC, a, want, rng)
             ac.plan = extras
+            if ac.stale is None:
+                ac.stale = ac.state_frame(ftype=rng.choice([2, 3, 5]))      # the state before the apply, as the appliance would have reported it
             n0 = len(ac.rx_frames)
             await a.apply()
             vec["apply_rx"] = [B(f) for f in ac.rx_frames[n0:] if acdev.parse_command(f).get("ok") and f[10:11] == b"\x40"]
             await asyncio.sleep(1)        # idle: whatever the appliance still had in flight arrives and is queued
+            ac.plan = (tuple(k for k in extras[0] if k != "stale"), tuple(k for k in extras[1] if k != "stale"))     # old-state reports only surround the apply
             toggled = bool(a.display_on) != want["display"]
             if toggled:
                 await a.toggle_display()
@@ -293,6 +297,8 @@ def plan(ctx, k, rng):
     nb, na = rng.choice([0, 0, 1, 2]), rng.choice([0, 0, 1, 2])
     extras = (tuple(rng.choice(EXTRAS) for _ in range(nb)), tuple(rng.choice(EXTRAS) for _ in range(na)))
     cutmode = rng.choice(["none", "one", "one", "few", "few", "bytewise"]) if ver == 3 else "none"
+    if rng.random() < 0.15:
+        extras = (extras[0], tuple(rng.choice([("stale", "dup"), ("dup", "stale", "dup"), ("report", "stale", "dup")])))
     return dict(ver=ver, extras=extras, cutmode=cutmode, stale_first=rng.random() < 0.35, v2_split=False, rich=rng.random() < 0.3,
                 history=rng.choice(HISTORIES) if rng.random() < 0.4 else "plain")
 
